@@ -15,7 +15,7 @@ From Anthem Require Import Base.ISet Syntax.Fol Syntax.Asp Sem.Domain Sem.Sat Se
   Model.Completion Model.StrategyCls Model.ExternalFull
   Proofs.SemBase Proofs.DecomposeOk Proofs.StrongOk Proofs.ExternalOk Proofs.AssemblyOk Proofs.RenameOk
   Proofs.C19Ext Proofs.C02Ok Proofs.FagesBridge Proofs.PlaceholderOk Proofs.C02Full Proofs.TightnessOk Proofs.PrivateUnique
-  Proofs.CompletionOk Proofs.HeadPred Proofs.HeadPredPipeline Proofs.C02Priv Proofs.C02Behaviour Proofs.C02Witness.
+  Proofs.CompletionOk Proofs.HeadPred Proofs.HeadPredPipeline Proofs.C02Priv Proofs.C02Behaviour Proofs.C02Complete Proofs.C02Witness.
 Open Scope string_scope.
 Open Scope list_scope.
 
@@ -296,6 +296,90 @@ Theorem C02_countermodel_sound :
        ~ exists N, pub_agree t N M /\ ext_stable_full t FI N L).
 Proof. exact C02_countermodel_proof. Qed.
 Print Assumptions C02_countermodel_sound.
+
+(* ---------------- the converse: completeness of countermodels (audit A3) ----------------
+   behavioural_difference t L FI T :=  T satisfies the user-guide assumptions and, for an enabled
+     direction, T is an external stable model of one program while NO interpretation with T's public
+     part is an external stable model of the other          (stated over the public part only)
+   rename_faithful t L :=  the names under which the private predicates of the program occur in the
+     problems (p_p when both sides have a private p, else p) are pairwise distinct and none of them
+     is a predicate of the specification program or public   (decidable: rename_faithfulb; its
+     failure is the class of finding F9 and its cross-side variant, C02_rename_unfaithful_witness)
+   ug_over_inputs t    :=  the assumptions of the user guide mention input predicates only
+                           (decidable: ug_over_inputsb)
+   From a behavioural difference ONE interpretation M with T's public part is constructed that
+   refutes an emitted problem: T on the specification side's vocabulary, the supported private
+   extension of the other side (C02_private_extension_exists) under the renamed names. *)
+Theorem C02_countermodel_complete :
+  forall (fuel : nat) (t : ext_task) (L : program) w pbs lft rgt,
+    et_specification t = inl L -> et_proof_outline t = [] ->
+    external_decompose_full fuel t = XOk w pbs ->
+    is_tight L = true -> is_tight (et_program t) = true ->
+    task_left tau_star_total completion (simp_classic_total fuel) t L = Some lft ->
+    task_right tau_star_total completion (simp_classic_total fuel) t = Some rgt ->
+    outputs_occur t ->
+    (forall vt, task_validated tau_star_total completion (simp_classic_total fuel) t = Some vt -> validated_no_clash vt) ->
+    rename_faithful t L -> ug_over_inputs t ->
+    forall (FI : fint) (T : pint),
+      behavioural_difference t L FI T -> exists M, pub_agree t M T /\ refutes_some FI M pbs.
+Proof. exact countermodel_complete. Qed.
+Print Assumptions C02_countermodel_complete.
+
+(* C02, both directions, for program-vs-program tasks without proof outline, both tight, inside the
+   four decidable classes: some interpretation refutes an emitted problem iff the programs differ in
+   external behaviour.  Hence: every emitted problem is irrefutable in standard structures iff the
+   claimed relation holds.  (Irrefutable = valid over the standard domain; the preamble and the
+   symbol_order chain are outside `refutes_some`, they are C12's; "provable by the prover" implies
+   irrefutable only through C06 + C12 at the TFF level.) *)
+Theorem C02_external_equivalence :
+  forall (fuel : nat) (t : ext_task) (L : program) w pbs lft rgt,
+    et_specification t = inl L -> et_proof_outline t = [] ->
+    external_decompose_full fuel t = XOk w pbs ->
+    is_tight L = true -> is_tight (et_program t) = true ->
+    task_left tau_star_total completion (simp_classic_total fuel) t L = Some lft ->
+    task_right tau_star_total completion (simp_classic_total fuel) t = Some rgt ->
+    outputs_occur t ->
+    (forall vt, task_validated tau_star_total completion (simp_classic_total fuel) t = Some vt -> validated_no_clash vt) ->
+    rename_faithful t L -> ug_over_inputs t ->
+    forall FI : fint,
+      (exists M, refutes_some FI M pbs) <-> (exists T, behavioural_difference t L FI T).
+Proof. exact external_equivalence_iff. Qed.
+Print Assumptions C02_external_equivalence.
+
+Theorem C02_rename_faithful_decidable :
+  forall (t : ext_task) (L : program), rename_faithfulb t L = true -> rename_faithful t L.
+Proof. exact rename_faithfulb_ok. Qed.
+Print Assumptions C02_rename_faithful_decidable.
+
+(* outside rename_faithful: finding F9 (the program has a private q and a private q_p, the
+   specification program a private q) *)
+Example C02_rename_unfaithful_witness : ~ rename_faithful t9 L8.
+Proof. exact t9_not_faithful. Qed.
+
+(* non-vacuity of C02_countermodel_complete / C02_external_equivalence: every premise discharged on
+   t8 =  specification  q :- in.  out :- q.     program  q :- not in.  out :- q.
+   input: in/0.  output: out/0.   (both sides have a private q/0: the program's is renamed q_p).
+   Both sides of the equivalence are inhabited: M8 = {in, q, out} refutes forward_problem_0, and the
+   behavioural difference obtained from it yields, through C02_countermodel_complete, a refuting
+   interpretation with the same public part. *)
+Example C02_external_equivalence_nonvacuous : forall FI : fint,
+  et_specification t8 = inl L8 /\ et_proof_outline t8 = [] /\
+  (external_decompose_full full_fuel t8 = XOk [] pbs8 /\ task_mapping t8 = [(mkpred "q" 0, "p")]) /\
+  (is_tight L8 = true /\ is_tight (et_program t8) = true) /\
+  task_left tau_star_total completion (simp_classic_total full_fuel) t8 L8 = Some lft8 /\
+  task_right tau_star_total completion (simp_classic_total full_fuel) t8 = Some rgt8 /\
+  outputs_occur t8 /\
+  (forall vt, task_validated tau_star_total completion (simp_classic_total full_fuel) t8 = Some vt -> validated_no_clash vt) /\
+  rename_faithful t8 L8 /\ ug_over_inputs t8 /\
+  refutes_some FI M8 pbs8 /\
+  (exists T M, behavioural_difference t8 L8 FI T /\ pub_agree t8 M T /\ refutes_some FI M pbs8).
+Proof.
+  intros FI.
+  split; [reflexivity|]. split; [reflexivity|]. split; [exact t8_accepted|]. split; [exact t8_tight|].
+  split; [exact t8_left|]. split; [exact t8_right|]. split; [exact t8_outputs_occur|]. split; [exact t8_no_clash|].
+  split; [exact t8_rename_faithful|]. split; [exact t8_ug_over_inputs|].
+  split; [exact (t8_refuted FI)|exact (t8_complete FI)].
+Qed.
 
 (* ---------------- the class excluded by [outputs_occur] (audit A4, finding F17) ---------------- *)
 (* an external stable model is empty on every public predicate that is neither an input nor the head
